@@ -15,7 +15,7 @@ from .core import Engine, Abort, Unsupported, Budget, set_engine, as_bool, W
 from .values import (SymInt, SymBool, SymBytes, AtomStr, signed, parse_template, render_template,
                      describe_template, has_atoms, eval_item, Atom)
 
-REPO_PREFIX = '/repo/'
+from vxlib.paths import REPO_PREFIX
 
 
 class Inconclusive(Exception):
